@@ -427,6 +427,10 @@ class Ctx:
             "lanes": self.lanes,
             "correspondence_failures": len(self.corr_failures),
             "property_failures": len(self.prop_failures),
+            "property_failure_list": [{"clause": c, "signature": sg, "case": cs, "detail": dt}
+                                      for (c, sg, cs, dt) in self.prop_failures[:8]],
+            "correspondence_failure_list": [{"name": n_, "case": cs, "detail": dt}
+                                            for (n_, cs, dt) in self.corr_failures[:8]],
             "known_findings_hit": [f"{c}|{s}" for (c, s) in self.known_hits],
             "distribution": self.stats,
             "driver_calls": self.driver.calls if self.driver else 0,
